@@ -614,6 +614,69 @@ def updater_complete_rule(ctx):
     return obs
 
 
+def wave8_rules(ctx):
+    """obligations added after the eighth wave of seeded changes"""
+    import guards as G
+    ob = ctx.ob
+    tc = ctx.tc
+    obs = []
+    # (1) the key list of a binding keeps every (field, index) pair it is given: the index has been reserved by then
+    ad = [f for f in tc.fns if f.name == "add" and f.base == "BindingMapKeys" and f.body]
+    if ad:
+        f = ad[0]
+        gs = G.guards_of(f.body)
+        pushes = [n for n in sir.walk(f.body) if n.get("k") == "mcall" and n["m"] in ("push", "insert", "push_back")]
+        guarded = [p_ for p_ in pushes if gs.get(id(p_))]
+        rets = [n for n in sir.walk(f.body) if n.get("k") == "return"]
+        ok = bool(pushes) and not guarded and not rets
+        obs.append(ob("C07.keys/add-unconditional", ok, ctx.where(f), "BindingMapKeys::add records every pair it is handed" if ok else "BindingMapKeys::add can drop a pair (an early return or a guarded push): the slot reserved for it in `A[field]` stays empty",
+                      witness=None if ok else "{{a + a}}: A[\"a\"]=new Array(2) with only index 0 assigned"))
+    # (2) the updater is assigned to the slot of *every* mapped field of the binding
+    wm = [f for f in tc.fns if f.name == "to_proc_gen_write_map" and f.body]
+    if wm:
+        f = wm[0]
+        probs = []
+        loops = [n for n in sir.walk(f.body) if n.get("k") == "for" and any(sir.write_fmt_call(x) for x in sir.walk(n["body"]))]
+        if not loops:
+            obs.append(ob("C07.emit/every-key", None, ctx.where(f), "the slot assignments are not written by a loop this rule reads"))
+        else:
+            for lp in loops:
+                chain, r_ = [], sir.strip_ref(lp["e"])
+                # resolve a local iterator
+                if r_.get("k") == "path" and len(r_["segs"]) == 1:
+                    for l_ in sir.walk(f.body):
+                        if l_.get("k") == "local" and l_["pat"].get("name") == r_["segs"][0] and l_.get("init") is not None:
+                            r_ = sir.strip_ref(l_["init"])
+                while r_.get("k") == "mcall":
+                    chain.append(r_["m"])
+                    r_ = r_["recv"]
+                cut = [m_ for m_ in chain if m_ in ("take_while", "skip_while", "take", "skip", "step_by", "find", "nth", "last", "first")]
+                if cut:
+                    probs.append("the keys are cut short by `%s`" % cut[0])
+                if "keys" not in sir.expr_str(r_) and "keys" not in sir.expr_str(lp["e"]):
+                    probs.append("the loop does not run over the binding's keys (`%s`)" % sir.expr_str(lp["e"])[:40])
+                if any(x.get("k") in ("break", "return") for x in sir.walk(lp["body"], into_closures=False)):
+                    probs.append("the loop can stop early (`break`/`return`)")
+            obs.append(ob("C07.emit/every-key", not probs, ctx.where(f), "every key of the binding that is still mapped gets the updater" if not probs else "; ".join(probs),
+                          witness=None if not probs else "{{b + a}} with `b` disabled later: A[\"a\"] is advertised but never assigned"))
+    # (3) an <include> disables the map wherever it stands: the call depends on the element kind alone
+    ib = [f for f in tc.fns if f.name == "init_scopes_and_binding_map_keys" and f.base == "Element" and f.body]
+    if ib:
+        f = ib[0]
+        gs = G.guards_of(f.body)
+        extra = []
+        for c in sir.walk(f.body):
+            if c.get("k") == "mcall" and c["m"] == "disable_all":
+                for kind, subj, pol in gs.get(id(c), []):
+                    if kind == "cond" and any(x.get("k") == "field" and x["name"] == "inside_dynamic_tree" for x in sir.walk(subj)):
+                        extra.append(sir.expr_str(subj)[:60])
+                    if kind == "cond" and subj.get("k") == "binary" and subj.get("op") in ("==", "!=", "<", ">", "<=", ">="):
+                        extra.append(sir.expr_str(subj)[:60])
+        obs.append(ob("C07.dynamic/include-anywhere", not extra, ctx.where(f), "disable_all() for an <include> does not depend on where the element stands" if not extra else "disable_all() runs only under %s" % sorted(set(extra))[:2],
+                      witness=None if not extra else "<block wx:if=..><include src=..></block> plus a plain {{a}}: `a` is advertised although the included content cannot be reached"))
+    return obs
+
+
 def run(ctx):
     from rules.c05 import check_iterators
     obs = []
@@ -637,4 +700,5 @@ def run(ctx):
     obs += emit_rule(ctx)
     obs += collector_rule(ctx)
     obs += updater_complete_rule(ctx)
+    obs += wave8_rules(ctx)
     return obs
